@@ -398,15 +398,24 @@ pub fn run(cfg: &Cfg) -> Report {
     // (B3) large cyclic factors through doubling chains: generators x_1..x_k with x_i^2 = x_{i+1} and
     // x_k^c = 1 present Z_{c 2^(k-1)} with relators of length <= max(3, c); two or three independent
     // chains give products whose invariant factors need 64-bit lcm arithmetic
-    let nchain = cfg.tier.pick(400, 20000);
+    let nchain = cfg.tier.pick(3 * 441 + 400, 3 * 441 + 20000);
     let ctx = par_range(cfg, nchain, |ctx, k| {
         let mut rng = Rng::stream(seed, 0x14_8000_0000 + k as u64);
         let chains = 2 + rng.below(2);
         let mut rels: Vec<Word> = vec![];
         let mut next = 1i64;
-        for _ in 0..chains {
-            let len = 20 + rng.below(14); // 2^19 .. 2^32
-            let c = *rng.pick(&[1i64, 3, 5, 6, 7, 9, 15]);
+        const CS: [i64; 7] = [1, 3, 5, 6, 7, 9, 15];
+        for ch in 0..chains {
+            // the first 3 x 441 cases enumerate the two-chain products at the top of the range (both factors between
+            // 2^30 and 15 * 2^32: the product of two invariant factors exceeds 2^63 while their lcm does not);
+            // the remaining cases are random
+            let (len, c) = if k < 3 * 441 && ch < 2 {
+                let e = k / 3; // each product in the three relator orders
+                let (li, ci) = if ch == 0 { ((e / 147) % 3, (e / 21) % 7) } else { ((e / 7) % 3, e % 7) };
+                (31 + li, CS[ci])
+            } else {
+                (20 + rng.below(14), *rng.pick(&CS)) // 2^19 .. 2^32
+            };
             let first = next;
             for i in 0..(len - 1) {
                 rels.push(vec![first + i as i64, first + i as i64, -(first + i as i64 + 1)]);
@@ -416,7 +425,13 @@ pub fn run(cfg: &Cfg) -> Report {
             next = last + 1;
         }
         let n = (next - 1) as usize;
-        rng.shuffle(&mut rels);
+        // relator order decides which diagonal the elimination arrives at (and so whether the gcd/lcm fix-up loop
+        // has anything to do): chain by chain, reversed, and shuffled
+        match k % 3 {
+            0 => {}
+            1 => rels.reverse(),
+            _ => rng.shuffle(&mut rels),
+        }
         judge(ctx, n, &rels, false, false, &mut rng, "doubling chains");
         ctx.count("doubling_chain_presentations");
         ctx.nontrivial(digest(&("chain", seed, k)));
